@@ -282,6 +282,12 @@ func analyseKinds(c *Ctx, fn *ssa.Function) (map[ssa.Value]kind, []kindIssue) {
 				if posFieldNames[fname] {
 					if k != kPos && k != kConst {
 						add(x.Pos(), "posfield-store:"+fieldCell(fa), "a positional field is stored a "+k.String())
+					} else if k == kConst {
+						// the only constant a position may be set to is the literal 0 (the reset value); a count that
+						// starts from a constant (an index into a sub-slice) is not a position in buf
+						if kz, isLit := x.Val.(*ssa.Const); !isLit || kz.Value == nil || kz.Int64() != 0 {
+							add(x.Pos(), "posfield-store-count:"+fieldCell(fa), "a positional field is stored a value computed from constants only (an index relative to something else than buf)")
+						}
 					}
 				} else if k == kPos && fname != "Len" {
 					add(x.Pos(), "pos-leak:"+fieldCell(fa), "a position flows into the non-positional output "+fieldCell(fa))
@@ -613,6 +619,23 @@ func ruleOW(c *Ctx) {
 			}
 		}
 	}
+	// a writer that is not a function of the pinned tree (a helper the neutraliser could not inline back) stands for
+	// its callers: they own the cell as well
+	for _, ws := range writers {
+		for changed := true; changed; {
+			changed = false
+			for w := range ws {
+				if pristineFuncs[w] {
+					continue
+				}
+				for cr := range callers[w] {
+					if !ws[cr] {
+						ws[cr], changed = true, true
+					}
+				}
+			}
+		}
+	}
 	var cells []cell
 	for cl := range writers {
 		cells = append(cells, cl)
@@ -635,13 +658,17 @@ func ruleOW(c *Ctx) {
 				if allowed[r] || len(callers[r]) == 0 {
 					continue
 				}
-				all := true
+				all, nlive := true, 0
 				for cr := range callers[r] {
+					if !live[cr] {
+						continue // a caller that cannot run (left-over of an inlined helper)
+					}
+					nlive++
 					if !allowed[cr] {
 						all = false
 					}
 				}
-				if all {
+				if all && nlive > 0 {
 					allowed[r], changed = true, true
 				}
 			}
@@ -674,7 +701,7 @@ func init() {
 			{"P", "kind analysis (dataflow to fixpoint on SSA) over every (buf, offs)-parametric function: values are constants, absolute positions (the offs parameter, len(buf), loop indices, offset results, positional fields) or scalars; a position may only be offset by constants/scalars, subtracted from a position (giving a length), compared with a position, used to index or slice the buffer, passed with the buffer, stored in positional fields or returned; comparisons position-vs-constant or position-vs-length, positions in multiplication/masks, positions leaking into non-positional outputs, constant or scalar buffer indices, field boundaries or returned offsets, and handing the whole buffer to a callee without a start offset are violations - by parametricity the outputs are then either shifted by k or unchanged", ruleC11},
 			{"BV", "offsets are applied to the buffer they were recorded in: no value loaded from PSIPMsg.RawMsg (the view re-based at the message start), directly or through slice expressions and phis, is passed to a function of the package — PField.Get, the signature helpers and the parsers all interpret their []byte argument with Buf-relative offsets", func(c *Ctx) { ruleBV(c, "BV") }},
 			{"OW", "saved positions stay inside their automaton: an unexported integer field that receives non-constant values (saved scan positions, the message start, the last header number) is read only by the functions that write it or by helpers called only from them; nothing else returns or uses such a cell, whose content is cleared or stale once the element completes", ruleOW},
-			{"M", "relocation of parsed URIs (the C18 rules M1, M2, M5): every component rebased identically, refusal without mutation", func(c *Ctx) { ruleM1(c); ruleM2(c); ruleM5(c) }},
+			{"M", "relocation of parsed URIs (the C18 rules M1, M2, M5, M6): every component rebased identically, refusal without mutation, one refusal decided by a difference of positions and every acceptance behind that test (the verdict does not depend on where the URI sits)", func(c *Ctx) { ruleM1(c); ruleM2(c); ruleM5(c); ruleM6(c) }},
 		},
 		Assumptions: []string{"16-bit field limit (65,535) as documented", "in-package (buf, offs) callees are analysed themselves"},
 		NotDecided:  "behaviour exactly at the 65,535 boundary; ParseURI works in URI-relative coordinates (relocation is covered by rule M)",
